@@ -178,3 +178,19 @@ def check_layout(buf, kind_expected='CPHD'):
     if prev_end != len(buf):
         problems.append(f'SIGNAL block ends at {prev_end} but the file has {len(buf)} bytes')
     return problems, kv
+
+
+def permute_pvp_fields(rng, pvp):
+    """the same per-vector parameters, each array declared with its fields in a different order (same names, offsets, item size):
+    a legitimate input (the writers compare dtypes sorted by offset); values must still land under their own parameters"""
+    out = {}
+    for k, v in pvp.items():
+        names = list(v.dtype.names)
+        rng.shuffle(names)
+        dt = numpy.dtype({'names': names, 'formats': [v.dtype.fields[n][0] for n in names],
+                          'offsets': [v.dtype.fields[n][1] for n in names], 'itemsize': v.dtype.itemsize})
+        w = numpy.zeros(v.shape, dtype=dt)
+        for n in names:
+            w[n] = v[n]
+        out[k] = w
+    return out
